@@ -109,6 +109,7 @@ func runC18(c *Ctx) {
 
 	// ---------------- time
 	c.timeThresholds()
+	c.asn1WriterRules()
 
 	// ---------------- identifier and length forms
 	if fn := w.Fn(ap + ".appendTagAndLength"); fn != nil {
